@@ -1001,10 +1001,10 @@ func (zl *zlexer) Next() (lex, bool) {
 			if zl.commt {
 				// Reset a comment
 				zl.commt = false
-				zl.rrtype = false
 
 				// If not in a brace this ends the comment AND the RR
 				if zl.brace == 0 {
+					zl.rrtype = false
 					zl.owner = true
 
 					l.value = zNewline
